@@ -182,7 +182,7 @@ func (pv *prover) le(a, b lin, facts []Atom, depth int) bool {
 	// already in progress is implied by it (induction hypothesis)
 	a0, b0 := a, b
 	a0.off, b0.off = 0, 0
-	key := a0.String() + "<=" + b0.String()
+	key := fmt.Sprintf("%s@%p<=%s@%p", a0.String(), a0.base, b0.String(), b0.base)
 	margin := b.off - a.off
 	if m0, ok := pv.inProgress[key]; ok && margin >= m0 {
 		return true
@@ -258,8 +258,120 @@ func (pv *prover) le(a, b lin, facts []Atom, depth int) bool {
 			}
 		}
 	}
+	// a or b is a result of a repository helper: prove the goal at every return of the helper
+	// that is consistent with what the caller knows about the helper's boolean/error results
+	if pv.viaHelper(a, b, facts, depth) {
+		return true
+	}
 	// a = x + y with y <= 0-ish is not handled
 	return false
+}
+
+func helperResult(l lin) (*ssa.Call, int, bool) {
+	if l.isLen || l.base == nil {
+		return nil, 0, false
+	}
+	switch x := l.base.(type) {
+	case *ssa.Extract:
+		if call, ok := x.Tuple.(*ssa.Call); ok {
+			if h := staticCallee(call.Common()); h != nil && h.Blocks != nil && inRepo(h) {
+				return call, x.Index, true
+			}
+		}
+	case *ssa.Call:
+		if h := staticCallee(x.Common()); h != nil && h.Blocks != nil && inRepo(h) && h.Signature.Results().Len() == 1 {
+			return x, 0, true
+		}
+	}
+	return nil, 0, false
+}
+
+func (pv *prover) viaHelper(a, b lin, facts []Atom, depth int) bool {
+	if depth > 5 {
+		return false
+	}
+	call, _, ok := helperResult(a)
+	if !ok {
+		call, _, ok = helperResult(b)
+	}
+	if !ok {
+		return false
+	}
+	h := staticCallee(call.Common())
+	if h == call.Parent() {
+		return false
+	}
+	args := call.Common().Args
+	// what the caller knows about the other results of this call
+	reqBool := map[int]bool{}
+	errNil := false
+	for _, at := range facts {
+		ex, ok := at.X.(*ssa.Extract)
+		if !ok || ex.Tuple != ssa.Value(call) {
+			continue
+		}
+		switch at.Kind {
+		case "val":
+			reqBool[ex.Index] = at.Pos
+		case "nil":
+			if at.Pos && isErrorType(ex.Type()) {
+				errNil = true
+			}
+		}
+	}
+	any := false
+	for _, r := range returnsOf(h) {
+		skip := false
+		for j, want := range reqBool {
+			if j < len(r.Results) {
+				if cb, ok := constBool(retOperand(r, j)); ok && cb != want {
+					skip = true
+				}
+			}
+		}
+		if n := len(r.Results); errNil && n >= 1 && isErrorType(r.Results[n-1].Type()) {
+			last := retOperand(r, n-1)
+			if !isNilConst(last) && (definitelyNonNil(strip(last)) || errNonNilAt(r, n-1) || isErrCtorCall(strip(last))) {
+				skip = true
+			}
+		}
+		if skip {
+			continue
+		}
+		tr := func(l lin) (lin, bool) {
+			if l.base == nil {
+				return l, true
+			}
+			if c2, k, ok := helperResult(l); ok && c2 == call {
+				if k >= len(r.Results) {
+					return l, false
+				}
+				out := linOf(retOperand(r, k))
+				out.off += l.off
+				return out, true
+			}
+			for j, arg := range args {
+				if j >= len(h.Params) {
+					break
+				}
+				al := linOf(arg)
+				if sameBase(al, l) && al.base != nil {
+					return lin{base: h.Params[j], off: l.off - al.off}, true
+				}
+			}
+			return l, false
+		}
+		ta, ok1 := tr(a)
+		tb, ok2 := tr(b)
+		if !ok1 || !ok2 {
+			return false
+		}
+		if !pv.le(ta, tb, factsAt(r.Block()), depth+1) {
+			return false
+		}
+		any = true
+	}
+	return any
 }
 
 func intrinsicNonNeg(b lin) bool {
